@@ -379,7 +379,7 @@ macro_rules! zip_h {
 macro_rules! zip_plain {
     ($name:ident, $N:ty, $n:expr) => {
         #[kani::proof]
-        #[kani::unwind(12)]
+        #[kani::unwind(16)]
         fn $name() {
             let sa: [u32; $n] = kani::any();
             let sb: [u32; $n] = kani::any();
